@@ -210,6 +210,9 @@ for g, c in (("SrcAddr", "ip_src"), ("DstAddr", "ip_dst"), ("PreNATDstAddr", "pr
 STATE_TAIL = {"ConntrackRCPadding": (["ct_result.rc", "ct_result.pad"], E), "ConntrackFlags": (["ct_result.flags"], E),
               # name: "NAT IP + port" of the conntrack result
               "ConntrackNATIPPort": (["ct_result.nat_ip", "ct_result.nat_port"], E),
+              # names used once fixes/C13-state-mirror-ct-result.patch is applied
+              "ConntrackNATIP": (["ct_result.nat_ip"], E), "ConntrackNATSrcIP": (["ct_result.nat_sip"], E),
+              "ConntrackNATPort": (["ct_result.nat_port"], E), "ConntrackNATSPort": (["ct_result.nat_sport"], E),
               "ConntrackTunIP": (["ct_result.tun_ip"], E), "ConntrackIfIndexFwd": (["ct_result.ifindex_fwd"], E),
               "ConntrackIfIndexCtd": (["ct_result.ifindex_created"], E), "NATData": (["nat_dest"], E),
               "ProgStartTime": (["prog_start_time"], E), "NATSvcID": (["nat_svc_id"], E)}
